@@ -1344,6 +1344,7 @@ func c17BusyTransient(r *Report, rule string) {
 		return h != c2.Parent() && mustLeave(h, 0)
 	}
 	// returnsBusy: some path from just after `in` reaches a return without the mark being taken away
+	var flagVal ssa.Value // when set: the helper's boolean result that says "the piece was marked busy"
 	returnsBusy := func(in ssa.Instruction) (bool, token.Pos) {
 		var at token.Pos
 		saved := pathTargetHook
@@ -1356,7 +1357,11 @@ func c17BusyTransient(r *Report, rule string) {
 			}
 			return true
 		}
-		_, reached := pathsMissing(in, -1, isRet, leaves, nil)
+		fv := flagVal
+		_, reached := pathsMissingX(in, -1, isRet, leaves, nil, func(cond ssa.Value, pol bool) bool {
+			// data, ok := ps.beginFinalise(index); if !ok { return }: on this edge nothing was marked
+			return fv != nil && cond == fv && !pol
+		})
 		pathTargetHook = saved
 		return reached > 0, at
 	}
@@ -1377,12 +1382,52 @@ func c17BusyTransient(r *Report, rule string) {
 		if len(esc) > 0 || len(calls) == 0 {
 			return false, at
 		}
+		// a boolean result of the helper that is true exactly on the returns reached after the transition
+		flagIdx := -1
+		after := reachableFrom(in.Block())
+		after[in.Block()] = true
+		for j := 0; j < f.Signature.Results().Len(); j++ {
+			if !isBoolType(f.Signature.Results().At(j).Type()) {
+				continue
+			}
+			good := true
+			for _, ret := range returnsOf(f) {
+				res := retResults(ret)
+				if j >= len(res) {
+					good = false
+					break
+				}
+				b, isb := constBool(res[j])
+				isAfter := after[ret.Block()] && (ret.Block() != in.Block() || instrIndex(in) < instrIndex(ret))
+				if !isb {
+					// a named result kept in a cell: the constants stored into it
+					b, isb = cellBoolAt(res[j], ret)
+				}
+				if !isb || b != isAfter {
+					good = false
+				}
+			}
+			if good {
+				flagIdx = j
+			}
+		}
 		for _, cs := range calls {
 			ci, okc := cs.(*ssa.Call)
 			if !okc {
 				return false, at
 			}
-			if ok2, at2 := check(ci, d+1); !ok2 {
+			saved := flagVal
+			flagVal = nil
+			if flagIdx >= 0 {
+				if f.Signature.Results().Len() == 1 {
+					flagVal = ci
+				} else if ex := extractOf(ci, flagIdx); ex != nil {
+					flagVal = ex
+				}
+			}
+			ok2, at2 := check(ci, d+1)
+			flagVal = saved
+			if !ok2 {
 				return false, at2
 			}
 		}
@@ -1419,4 +1464,38 @@ func lastPosIn(b *ssa.BasicBlock) token.Pos {
 		}
 	}
 	return token.NoPos
+}
+
+// cellBoolAt: v is a load (at return ret) of a named boolean result kept in a cell; the value is the constant of the
+// last store that dominates the return, when every path to the return passes that store after any other.
+func cellBoolAt(v ssa.Value, ret *ssa.Return) (bool, bool) {
+	ld, ok := v.(*ssa.UnOp)
+	if !ok || ld.Op != token.MUL {
+		return false, false
+	}
+	al, ok := ld.X.(*ssa.Alloc)
+	if !ok {
+		return false, false
+	}
+	var stores []*ssa.Store
+	for _, ref := range *al.Referrers() {
+		if st, isSt := ref.(*ssa.Store); isSt && st.Addr == ssa.Value(al) {
+			stores = append(stores, st)
+		}
+	}
+	// the zero value unless a store reaches the return
+	var last *ssa.Store
+	for _, st := range stores {
+		if instrDominates(st, ret) {
+			if last == nil || instrDominates(last, st) {
+				last = st
+			}
+		} else if instrReaches(st, ret) {
+			return false, false // a store on some paths only
+		}
+	}
+	if last == nil {
+		return false, true
+	}
+	return constBool(last.Val)
 }
